@@ -67,7 +67,8 @@ class write_float:
         encoder._fo.pos == len(encoder._fo.data)
         and A.TYPE(schema) == "float" and A.CONFORMS(datum, schema, named_schemas, options))
     modifies = ["encoder._fo"]
-    raises = [R("OverflowError", must=False)]
+    raises = [R("OverflowError", must=False,
+                ensures=lambda encoder: encoder._fo.data.startswith(old.encoder._fo.data))]
     ensures = lambda encoder, datum, schema, named_schemas, options, result: (
         encoder._fo.data == old.encoder._fo.data + A.ENC(schema, named_schemas, datum, options)
         and encoder._fo.pos == len(encoder._fo.data) and result is None)
@@ -80,7 +81,8 @@ class write_double:
         encoder._fo.pos == len(encoder._fo.data)
         and A.TYPE(schema) == "double" and A.CONFORMS(datum, schema, named_schemas, options))
     modifies = ["encoder._fo"]
-    raises = [R("OverflowError", must=False)]
+    raises = [R("OverflowError", must=False,
+                ensures=lambda encoder: encoder._fo.data.startswith(old.encoder._fo.data))]
     ensures = lambda encoder, datum, schema, named_schemas, options, result: (
         encoder._fo.data == old.encoder._fo.data + A.ENC(schema, named_schemas, datum, options)
         and encoder._fo.pos == len(encoder._fo.data) and result is None)
@@ -148,11 +150,11 @@ class write_array:
     requires = lambda encoder, datum, schema, named_schemas, options: (
         encoder._fo.pos == len(encoder._fo.data)
         and A.TYPE(schema) == "array" and A.WF(schema, named_schemas)
-        and isinstance(datum, (list, tuple))     # bytes / bytearray data under an array schema: bounded stand-in only
         and A.CONFORMS(datum, schema, named_schemas, options)
         and not options.get("strict") and not options.get("strict_allow_default"))
     modifies = ["encoder._fo"]
-    raises = [R("OverflowError", must=False)]
+    raises = [R("OverflowError", must=False,
+                ensures=lambda encoder: encoder._fo.data.startswith(old.encoder._fo.data))]
     ensures = lambda encoder, datum, schema, named_schemas, options, result: (
         encoder._fo.data == old.encoder._fo.data + A.ENC(schema, named_schemas, datum, options)
         and encoder._fo.pos == len(encoder._fo.data) and result is None)
@@ -172,7 +174,8 @@ class write_map:
         and A.CONFORMS(datum, schema, named_schemas, options)
         and not options.get("strict") and not options.get("strict_allow_default"))
     modifies = ["encoder._fo"]
-    raises = [R("OverflowError", must=False)]
+    raises = [R("OverflowError", must=False,
+                ensures=lambda encoder: encoder._fo.data.startswith(old.encoder._fo.data))]
     ensures = lambda encoder, datum, schema, named_schemas, options, result: (
         encoder._fo.data == old.encoder._fo.data + A.ENC(schema, named_schemas, datum, options)
         and encoder._fo.pos == len(encoder._fo.data) and result is None)
@@ -196,7 +199,8 @@ class write_union:
         and A.CONFORMS(datum, schema, named_schemas, options)
         and not options.get("strict") and not options.get("strict_allow_default"))
     modifies = ["encoder._fo"]
-    raises = [R("OverflowError", must=False)]
+    raises = [R("OverflowError", must=False,
+                ensures=lambda encoder: encoder._fo.data.startswith(old.encoder._fo.data))]
     ensures = lambda encoder, datum, schema, named_schemas, options, result: (
         encoder._fo.data == old.encoder._fo.data + A.ENC(schema, named_schemas, datum, options)
         and encoder._fo.pos == len(encoder._fo.data) and result is None)
@@ -212,7 +216,8 @@ class write_record:
         and A.CONFORMS(datum, schema, named_schemas, options)
         and not options.get("strict") and not options.get("strict_allow_default"))
     modifies = ["encoder._fo"]
-    raises = [R("OverflowError", must=False)]
+    raises = [R("OverflowError", must=False,
+                ensures=lambda encoder: encoder._fo.data.startswith(old.encoder._fo.data))]
     ensures = lambda encoder, datum, schema, named_schemas, options, result: (
         encoder._fo.data == old.encoder._fo.data + A.ENC(schema, named_schemas, datum, options)
         and encoder._fo.pos == len(encoder._fo.data) and result is None)
@@ -233,11 +238,11 @@ class write_data:
     requires = lambda encoder, datum, schema, named_schemas, options: (
         encoder._fo.pos == len(encoder._fo.data)
         and A.WF(schema, named_schemas) and implies(isinstance(schema, dict), "logicalType" not in schema)
-        and A.NO_BYTES_ARRAYS(datum, schema, named_schemas)
         and A.CONFORMS(datum, schema, named_schemas, options)
         and not options.get("strict") and not options.get("strict_allow_default"))
     modifies = ["encoder._fo"]
-    raises = [R("OverflowError", must=False)]
+    raises = [R("OverflowError", must=False,
+                ensures=lambda encoder: encoder._fo.data.startswith(old.encoder._fo.data))]
     ensures = lambda encoder, datum, schema, named_schemas, options, result: (
         encoder._fo.data == old.encoder._fo.data + A.ENC(schema, named_schemas, datum, options)
         and encoder._fo.pos == len(encoder._fo.data) and result is None)
